@@ -216,6 +216,70 @@ def _holder_agreement(repo: Repo, rep: Report) -> None:
         rep.error(f"R17.9: only {n} generation-time helper installations found")
 
 
+def _namespace_leaks(repo: Repo, rep: Report) -> None:
+    """R17.11: every generated namespace starts as a copy of builder.py's globals, and user modules are added with
+    setdefault -- so a *module object* bound at builder.py's top level under a short name (`from mashumaro.core import const`,
+    `import mashumaro.helper as helper`) occupies that name in every generated function and shadows a user module of the same
+    name.  Only the standard-library modules the generated code itself uses may be bound there."""
+    from ..core.srcmodel import M_BUILDER
+
+    mi = repo.module(M_BUILDER)
+    n = 0
+    for st in mi.tree.body:
+        names = []
+        if isinstance(st, ast.ImportFrom) and st.module and st.module.startswith("mashumaro"):
+            for a in st.names:
+                full = f"{st.module}.{a.name}"
+                if full in repo.modules:
+                    names.append((a.asname or a.name, full))
+                n += 1
+        elif isinstance(st, ast.Import):
+            for a in st.names:
+                n += 1
+                if a.name.startswith("mashumaro"):
+                    names.append((a.asname or a.name.split(".")[0], a.name))
+        for short, full in names:
+            rep.violation("R17.11", f"{M_BUILDER}::<module>", f"builder.py binds the module {full} as `{short}`",
+                          f"`{short}` is then a global of every generated (de)serializer; a type rendered by dotted name from a user module called `{short}` resolves to the "
+                          "library's module instead (AttributeError / wrong class)", loc=f"mashumaro/core/meta/code/builder.py:{st.lineno}")
+    if n < 20:
+        rep.error(f"R17.11: only {n} imports seen in builder.py")
+    else:
+        rep.ok("R17.11", f"none of the {n} names imported by builder.py from the library is a module object", None)
+
+
+def _type_name_lossless(repo: Repo, rep: Report) -> None:
+    """R17.12: type_name() and its helpers render a type completely: the text is spliced into generated code as an expression
+    (`raise InvalidFieldValue('x', typing.Literal['...'], value, cls)`), so truncating or abbreviating any part (a long
+    Literal value, a long argument list) yields code that does not compile or names another type."""
+    from ..core.srcmodel import M_HELPERS
+
+    names = ["_get_literal_values_str"]  # the only helper that renders user-supplied values (Literal strings) into the type text
+    n = 0
+    for nm in dict.fromkeys(names):
+        fi = repo.funcs.get(f"{M_HELPERS}::{nm}")
+        if fi is None:
+            continue
+        n += 1
+        lossy = []
+        for node in ast.walk(fi.node):
+            if isinstance(node, ast.Subscript) and isinstance(node.slice, ast.Slice):
+                lossy.append(ast.unparse(node)[:50])
+            if isinstance(node, ast.Constant) and isinstance(node.value, str) and node.value in ("...", "…"):
+                lossy.append("'...' marker")
+            if isinstance(node, ast.Compare) and any(isinstance(x, ast.Call) and ast.unparse(x.func) == "len" for x in ast.walk(node)):
+                lossy.append(ast.unparse(node)[:50])
+            if isinstance(node, ast.Call) and ast.unparse(node.func).split(".")[-1] in ("shorten", "ljust", "rjust", "truncate"):
+                lossy.append(ast.unparse(node)[:50])
+        if lossy:
+            rep.violation("R17.12", fi.key, f"{nm} abbreviates the rendered type ({lossy[0]})", "the rendered text is evaluated as an expression inside generated code: an abbreviated "
+                          "Literal / argument list is a syntax error or another type", loc=fi.loc)
+        else:
+            rep.ok("R17.12", f"{nm} renders its argument without slicing or abbreviation", None)
+    if n < 1:
+        rep.undecide("R17.12", "_get_literal_values_str not found")
+
+
 def run(repo: Repo, rep: Report, tier: str) -> None:
     c = corpus_mod.explore_all(repo, tier)
     for e in c.errors:
@@ -435,6 +499,8 @@ def run(repo: Repo, rep: Report, tier: str) -> None:
     _hc.report(repo, rep, "R17.8", _hc.add_type_modules_contract(repo), "mashumaro.core.meta.code.builder::CodeBuilder.add_type_modules")
     _holder_agreement(repo, rep)
     _hc.report(repo, rep, "R17.10", _hc.forward_ref_contract(repo), "mashumaro.core.meta.code.builder::CodeBuilder.evaluate_forward_ref")
+    _namespace_leaks(repo, rep)
+    _type_name_lossless(repo, rep)
 
 def _skel(it) -> str:
     return " | ".join(l.tmpl.skeleton() for l in it.lines)
@@ -466,3 +532,9 @@ LEVEL_TEXT += _ADD4
 _ADD5 = " R17.9: a helper installed with setattr(<spec>.attrs, name, fn) is referenced through the same spec's holder name. R17.10: contract of evaluate_forward_ref (module globals of the referencing type, builder attributes as locals)."
 EXPLANATION += _ADD5
 LEVEL_TEXT += _ADD5
+_ADD13 = ' R17.11: builder.py (whose globals seed every generated namespace) binds no library module object under a short name.'
+EXPLANATION += _ADD13
+LEVEL_TEXT += _ADD13
+_ADD20 = ' R17.12: type_name and its helpers render types without truncation.'
+EXPLANATION += _ADD20
+LEVEL_TEXT += _ADD20
